@@ -34,9 +34,10 @@ func (s Sort) Elem() Sort {
 }
 
 // Term ops:
-//   "true","false","int" (Name=digits),"var" (Name), "lit" (distinct literal of sort, Name=payload),
-//   "app" (Name=fn), "and","or","not","ite","=","<","<=","+","-","*","select","store",
-//   "forall","exists" (Args[0..n-1]=bound vars, Args[n]=body), "bound" (Name)
+//
+//	"true","false","int" (Name=digits),"var" (Name), "lit" (distinct literal of sort, Name=payload),
+//	"app" (Name=fn), "and","or","not","ite","=","<","<=","+","-","*","select","store",
+//	"forall","exists" (Args[0..n-1]=bound vars, Args[n]=body), "bound" (Name)
 type Term struct {
 	Op   string
 	Name string
@@ -142,7 +143,7 @@ func FreshBound(prefix string, s Sort) *Term {
 	return mk("bound", fmt.Sprintf("%s!%d", prefix, freshSeq), s)
 }
 func Lit(s Sort, payload string) *Term { return mk("lit", payload, s) }
-func IntLit(n int64) *Term              { return mk("int", strconv.FormatInt(n, 10), SInt) }
+func IntLit(n int64) *Term             { return mk("int", strconv.FormatInt(n, 10), SInt) }
 func BoolLit(b bool) *Term {
 	if b {
 		return TTrue
@@ -254,6 +255,29 @@ func Or(as ...*Term) *Term {
 	for _, a := range as {
 		if !add(a) {
 			return TTrue
+		}
+	}
+	// absorption: a or (not a and b) == a or b
+	if len(out) > 1 {
+		changed := false
+		for i, t := range out {
+			if t.Op != "and" {
+				continue
+			}
+			var keep []*Term
+			for _, cj := range t.Args {
+				if cj.Op == "not" && seen[cj.Args[0]] {
+					continue
+				}
+				keep = append(keep, cj)
+			}
+			if len(keep) != len(t.Args) {
+				out[i] = And(keep...)
+				changed = true
+			}
+		}
+		if changed {
+			return Or(out...)
 		}
 	}
 	switch len(out) {
@@ -644,6 +668,12 @@ func (p *printer) inline(t *Term) string {
 type Script struct {
 	Asserts []*Term
 	Comment []string
+	Goals   []GoalPart // optional: each goal is checked in its own push/pop scope
+}
+
+type GoalPart struct {
+	Asserts []*Term
+	Tag     string
 }
 
 type sig struct {
@@ -672,6 +702,11 @@ func (sc *Script) Render(extraAxioms func(all []*Term) []*Term) string {
 	asserts := append([]*Term(nil), sc.Asserts...)
 	for _, a := range asserts {
 		walk(a)
+	}
+	for _, g := range sc.Goals {
+		for _, a := range g.Asserts {
+			walk(a)
+		}
 	}
 	if extraAxioms != nil {
 		// axioms may introduce new terms; iterate to a fixpoint (bounded)
@@ -797,6 +832,13 @@ func (sc *Script) Render(extraAxioms func(all []*Term) []*Term) string {
 	}
 	for _, a := range asserts {
 		fmt.Fprintf(&b, "(assert %s)\n", p.inline(a))
+	}
+	for _, g := range sc.Goals {
+		fmt.Fprintf(&b, "(push 1)\n(echo \"goal %s\")\n", g.Tag)
+		for _, a := range g.Asserts {
+			fmt.Fprintf(&b, "(assert %s)\n", p.inline(a))
+		}
+		b.WriteString("(check-sat)\n(pop 1)\n")
 	}
 	return b.String()
 }
